@@ -161,7 +161,7 @@ func c18Wrap(c *Ctx) {
 		return
 	}
 	// Store: every inner Store gets Encrypt(value)
-	valueP := an.ParamNamed(store, "value")
+	valueP := an.ParamOfType(store, "value", "[]byte")
 	nInner := 0
 	for _, call := range an.Calls(store) {
 		if !an.CalleeIs(call, mastPersistS3, "Persist", "Store") {
@@ -250,6 +250,13 @@ func c18Wrap(c *Ctx) {
 	// toPersistEncrypt: the encryptor field of the wrapper is the parameter (noEncryption only when nil)
 	encF := mustField(c, "kv", "persistEncryptor", "encryptor")
 	encP := an.ParamNamed(tpe, "encryptor")
+	if encP == nil {
+		for _, p := range tpe.Params {
+			if nt := an.NamedOf(p.Type()); nt != nil && nt.Obj().Name() == "Encryptor" {
+				encP = p
+			}
+		}
+	}
 	if encF != nil && encP != nil {
 		for _, st := range an.StoresToField(tpe, encF) {
 			good := false
